@@ -55,7 +55,7 @@ func cliSignalCase(prop string, idx int, seed int64) (string, bool) {
 	case err := <-done:
 		inTime = true
 		exitOK = err == nil
-	case <-time.After(10 * time.Second):
+	case <-time.After(30 * time.Second):
 		cmd.Process.Kill()
 		<-done
 	}
